@@ -586,15 +586,20 @@ func (p *Builder) writePolicy(policy Policy, actionLabels map[string]string, des
 }
 
 func (p *Builder) writeProfile(profile Profile, idx int, allowLabel string) {
+	// A matching Pass rule ends this profile and moves on to the next one (as in the
+	// iptables/nftables dataplanes); if no later profile allows, the packet is dropped by the
+	// rule that follows the profiles.
+	endOfProfileLabel := fmt.Sprint("end_of_profile_", p.policyID)
 	actionLabels := map[string]string{
 		"allow":     allowLabel,
 		"deny":      "deny",
-		"pass":      "deny",
-		"next-tier": "deny",
+		"pass":      endOfProfileLabel,
+		"next-tier": endOfProfileLabel,
 		"log":       "log",
 	}
 	log.Debugf("Start of profile %q %d", profile.Name, idx)
 	p.writePolicyRules(profile, actionLabels, legDest)
+	p.b.LabelNextInsn(endOfProfileLabel)
 	log.Debugf("End of profile %q %d", profile.Name, idx)
 	p.policyID++
 }
